@@ -22,7 +22,7 @@ CLAIMED = {
         "agent: the bulk walk yields nothing outside the roots and nothing twice, is order-independent, and with one "
         "repetition per request IS the GETNEXT walk (fetcher equality); bulk walk traces correspond to the implementation "
         "for sizes x truncation policies; oracle = equality with the GETNEXT walk",
-        "equality with the GETNEXT walk for repetition counts > 1 is checked by the oracle and correspondence, not proved; truncation policies keep >= 1 full repetition",
+        "equality with the GETNEXT walk for repetition counts > 1 is checked by the oracle and correspondence, not proved; truncation policies keep >= 1 binding per response",
     ),
     "C03": (
         "proof (partial): fetcher-level progress (any accepted response advances every column) and the ending prescribed for "
